@@ -32,11 +32,18 @@ Print Assumptions C16_sibling_never.
 (** position in the notification order: a reader of an ancestor r of the written field p
     (or of p itself) is woken at position |r|, a reader of a proper descendant at |p|+1 *)
 Theorem C16_wake_position :
-  forall p r, wake_pos p r =
+  forall p r, p <> [] -> wake_pos p r =
     if is_prefix r p then Some (length r)
     else if is_prefix p r then Some (S (length p)) else None.
 Proof. exact wake_pos_spec. Qed.
 Print Assumptions C16_wake_position.
+
+(** ... and for the root's own path (the guard of a type-erased handle of the store notifies
+    children, children, this): the store's readers at 0, everybody else at 2 *)
+Theorem C16_wake_position_root :
+  forall r, wake_pos [] r = match r with [] => Some 0 | _ :: _ => Some 2 end.
+Proof. exact wake_pos_root. Qed.
+Print Assumptions C16_wake_position_root.
 
 (** hence the order of notification is monotone in the depth of the reader, strictly so for
     readers of ancestors of the written field (and of the field itself) against anything deeper *)
@@ -206,3 +213,37 @@ Theorem C16_update_keys_restores_sync :
   forall c1 c2 f v, fk_wf f -> NoDup (keys_of v) -> keys_synced (fk_update c1 c2 f (keys_of v)) v.
 Proof. exact update_restores_sync. Qed.
 Print Assumptions C16_update_keys_restores_sync.
+
+(** ---- open finding F-C16-g: order between two readers that both sit strictly below the
+    written field ---- *)
+
+(** refuted as a statement about every pair (reader of an ancestor, reader of its descendant):
+    with readers created in the order [store.m.x; store.m], writing the store queues the reader
+    of store.m.x (effect 0) before the reader of store.m (effect 1) *)
+Theorem C16_ancestor_first_refuted :
+  let sh := SStruct [SInt; SStruct [SInt; SInt]] in
+  let v := Lst [Num 1%Z; Lst [Num 2%Z; Num 3%Z]] in
+  let readers := [(false, [Fld 1; Fld 0]); (false, [Fld 1])] in
+  let s := after sh readers [] [] v [] in
+  st_queue (fst (do_set sh ([], []) s [] (Lst [Num 4%Z; Lst [Num 5%Z; Num 6%Z]]))) = [0; 1].
+Proof. exact ancestor_first_refuted. Qed.
+Print Assumptions C16_ancestor_first_refuted.
+
+(** except in that known class (KnownClass: the written field is a proper ancestor of both
+    readers), the reader of an ancestor is queued before the reader of its descendant ... *)
+Theorem C16_ancestor_first_except_known :
+  forall n s p e1 e2 r1 r2,
+    consistent n s -> st_queue s = [] -> reads s e1 [r1] -> reads s e2 [r2] ->
+    is_prefix r1 r2 = true -> r1 <> r2 -> wakes p r1 = true -> wakes p r2 = true ->
+    ~ (is_prefix p r1 = true /\ p <> r1) ->
+    exists q1 q2, st_queue (notify_all s (notified WField p)) = q1 ++ q2 /\ In e1 q1 /\ ~ In e2 q1 /\ In e2 q2.
+Proof. exact ancestor_first_except_known. Qed.
+Print Assumptions C16_ancestor_first_except_known.
+
+(** ... and the store's own guard queues the readers of the store before everybody else *)
+Theorem C16_store_reader_queued_first :
+  forall n s e1 e2 r2,
+    consistent n s -> st_queue s = [] -> reads s e1 [[]] -> reads s e2 [r2] -> r2 <> [] ->
+    exists q1 q2, st_queue (notify_all s (notified WRoot [])) = q1 ++ q2 /\ In e1 q1 /\ ~ In e2 q1 /\ In e2 q2.
+Proof. exact store_reader_queued_first. Qed.
+Print Assumptions C16_store_reader_queued_first.
